@@ -232,6 +232,22 @@ def main(argv=None):
             return 3
         bounded_reports.append({k: v for k, v in br.items() if k != "violations"})
         bounded_viol.extend(br.get("violations", []))
+    if tier == "thorough" and not prop.get("bounded"):
+        # thorough tier: differential of the real code against the executable reference (harness/specexec.py) on generated inputs -
+        # a cross-check of pyvc's encoding and of the spec functions, labelled bounded, never counted as proved
+        t1 = time.time()
+        try:
+            r_ = with_deadline(3000, replay.concretise, pid, dict(id="cross-check", model=None), tier, seed)
+        except NativeDeadline as ex:
+            print(f"CHECKER-ERROR: native differential did not finish: {ex}", file=sys.stderr)
+            return 3
+        except Exception:
+            traceback.print_exc()
+            return 3
+        bounded_reports.append(dict(name="native differential of the real code against the executable reference on generated inputs (cross-check)",
+                                    bound=f"{r_.get('tried', '?')} generated cases, seed {seed}", labelled="bounded", wall_s=round(time.time() - t1, 2)))
+        if r_.get("found"):
+            bounded_viol.append(dict(check="native differential", witness_id=f"{pid}:differential", witness=r_.get("witness"), detail=r_.get("detail")))
     violations = []
     os.makedirs(os.path.join(OUT, "replays", pid), exist_ok=True)
     seen = set()
